@@ -1,4 +1,4 @@
-import NA.Proofs.C19Number4
+import NA.Proofs.C19Code
 /-!
 # C19 — an undisturbed run promotes the newest revision (unless a leftover `next` makes
 `uptodate` say yes)
@@ -11,25 +11,6 @@ say that `current` names the newest revision; `exit n` (n ≠ 0) nowhere reachab
 set_option linter.unusedVariables false
 set_option linter.unnecessarySimpa false
 namespace NA.C19
-
-def Cmd.wNext : Cmd → Bool
-  | .rmrfNext | .mkdirNext | .gitClone | .compile | .gitCommitPolicy | .gitPullMerge | .gitResetHash | .mvNextTo
-  | .gitRevert | .gitPullPlain => true
-  | _ => false
-def Cmd.wDirs : Cmd → Bool
-  | .mvNextTo => true
-  | _ => false
-def Cmd.wGhost : Cmd → Bool
-  | .gitClone | .gitCommitPolicy | .gitPullMerge | .gitPush | .gitRevert => true
-  | _ => false
-
-theorem fr_next (c : Cmd) (g : G) (p : Proc) (h : c.wNext = false) : (exec c g p).1.next = g.next := by
-  cases c <;> simp [Cmd.wNext] at h <;> simp only [exec] <;> (repeat' split) <;> simp_all
-theorem fr_dirs (c : Cmd) (g : G) (p : Proc) (h : c.wDirs = false) : (exec c g p).1.dirs = g.dirs := by
-  apply exec_dirs; intro hc; subst hc; simp [Cmd.wDirs] at h
-theorem fr_ghost (c : Cmd) (g : G) (p : Proc) (h : c.wGhost = false) :
-    (exec c g p).1.trouble = g.trouble ∧ (exec c g p).1.edited = g.edited := by
-  cases c <;> simp [Cmd.wGhost] at h <;> simp only [exec] <;> (repeat' split) <;> simp_all
 
 structure C3 where
   lockFree  : Bool   -- the lock is free or ours
@@ -50,6 +31,7 @@ structure C3 where
 structure F3 where
   n : F2
   s : F1
+  k : F4
   c : C3
 
 def C3.kept (a : C3) (c : Cmd) : C3 where
@@ -97,7 +79,7 @@ def tfc (c : Cmd) (a : F3) (ok : Bool) : Option C3 :=
   | .gitResetHash =>
     some { k with headR := a.c.headR && a.c.hashHead, hGood := a.c.hGood && a.c.hashHead, hashHead := a.c.hashHead }
   | .mvNextTo =>
-    if a.c.headR && a.s.nextOk && a.n.fresh && a.c.quietF then
+    if a.c.headR && a.s.nextOk && a.k.codeH && a.n.fresh && a.c.quietF then
       (if ok then some { k with dirNew := true, nextNone := true } else none)
     else some k
   | .rmCurrent => some { k with curNone := true }
@@ -105,9 +87,9 @@ def tfc (c : Cmd) (a : F3) (ok : Bool) : Option C3 :=
   | _ => some k
 
 def tf3 (c : Cmd) (a : F3) (ok : Bool) : Option F3 :=
-  match tf2 c a.n ok, tf1 c a.s ok, tfc c a ok with
-  | some n, some s, some c' => some ⟨n, s, c'⟩
-  | _, _, _ => none
+  match tf2 c a.n ok, tf1 c a.s ok, tf4 c a.k ok, tfc c a ok with
+  | some n, some s, some k, some c' => some ⟨n, s, k, c'⟩
+  | _, _, _, _ => none
 
 def req3 (c : Cmd) (a : F3) : Bool :=
   req1 c a.s &&
@@ -126,13 +108,13 @@ def C3.leB (a b : C3) : Bool :=
 invocation starts. -/
 def calm : Dom where
   F := F3
-  le a b := numbering.le a.n b.n && safety.le a.s b.s && C3.leB a.c b.c
-  meet a b := ⟨numbering.meet a.n b.n, safety.meet a.s b.s,
+  le a b := numbering.le a.n b.n && safety.le a.s b.s && code.le a.k b.k && C3.leB a.c b.c
+  meet a b := ⟨numbering.meet a.n b.n, safety.meet a.s b.s, code.meet a.k b.k,
     ⟨a.c.lockFree && b.c.lockFree, a.c.notStale && b.c.notStale, a.c.goodR && b.c.goodR, a.c.quietF && b.c.quietF,
      a.c.nextNone && b.c.nextNone, a.c.nextEmpty && b.c.nextEmpty, a.c.headR && b.c.headR, a.c.baseEq && b.c.baseEq,
      a.c.hGood && b.c.hGood, a.c.hashHead && b.c.hashHead, a.c.dirNew && b.c.dirNew, a.c.curNone && b.c.curNone,
      a.c.newestF && b.c.newestF⟩⟩
-  entry := ⟨numbering.entry, safety.entry,
+  entry := ⟨numbering.entry, safety.entry, code.entry,
     ⟨true, true, true, true, false, false, false, false, false, false, false, false, false⟩⟩
   tf := tf3
   req := req3
@@ -150,13 +132,15 @@ structure Γc (a : C3) (g : G) (p : Proc) : Prop where
   baseEq    : a.baseEq = true → p.base = g.remote
   hGood     : a.hGood = true → ∃ h, g.nextHead = some h ∧ (commitAt g.store h).good = true
   hashHead  : a.hashHead = true → g.nextHead = some p.hash
-  dirNew    : a.dirNew = true → ∃ d, lookupDir g.dirs p.policy = some d ∧ d.built = true ∧ d.head = some g.remote
+  dirNew    : a.dirNew = true → ∃ d, lookupDir g.dirs p.policy = some d ∧ d.built = true ∧ d.head = some g.remote ∧
+                d.code = treeOf g g.remote ∧ d.mixed = false
   curNone   : a.curNone = true → g.current = none
   newestF   : a.newestF = true → g.newest = true
 
 structure Γ3 (a : F3) (g : G) (p : Proc) : Prop where
   s : Γ1 a.s g p
   n : a.c.quietF = true → Γ2 a.n g p
+  k : Γ4 a.k g p
   c : Γc a.c g p
 
 theorem Γc.mono {a b : C3} {g : G} {p : Proc} (h : Γc a g p) (hle : C3.leB a b = true) : Γc b g p := by
@@ -179,8 +163,8 @@ theorem Γc.mono {a b : C3} {g : G} {p : Proc} (h : Γc a g p) (hle : C3.leB a b
 
 theorem Γ3.mono {a b : F3} {g : G} {p : Proc} (h : Γ3 a g p) (hle : calm.le a b = true) : Γ3 b g p := by
   simp only [calm, Bool.and_eq_true] at hle
-  obtain ⟨⟨h1, h2⟩, h3⟩ := hle
-  refine ⟨h.s.mono h2, ?_, h.c.mono h3⟩
+  obtain ⟨⟨⟨h1, h2⟩, h4⟩, h3⟩ := hle
+  refine ⟨h.s.mono h2, ?_, h.k.mono h4, h.c.mono h3⟩
   intro hq
   have : a.c.quietF = true := by
     simp only [C3.leB, Bool.and_eq_true, Bool.or_eq_true, Bool.not_eq_true'] at h3
@@ -193,10 +177,6 @@ theorem Γ3.mono {a b : F3} {g : G} {p : Proc} (h : Γ3 a g p) (hle : calm.le a 
 
 section keep
 variable (c : Cmd) {g : G} {p : Proc}
-
-theorem commitAt_exec {i : Nat} (h : i ≤ g.store.length) : commitAt (exec c g p).1.store i = commitAt g.store i := by
-  obtain ⟨l, hl⟩ := fr_store_grow c g p
-  rw [hl, commitAt_append h]
 
 theorem keep_all3 {a : C3} {pc : Nat} {t : Bool} (hΓ : Γc a g p) (hvg : VG g) :
     Γc (a.kept c) (exec c g p).1 (upd (exec c g p).2.1 pc t) := by
@@ -254,7 +234,7 @@ theorem keep_all3 {a : C3} {pc : Nat} {t : Bool} (hΓ : Γc a g p) (hvg : VG g) 
     simp only [C3.kept, Bool.and_eq_true, Bool.not_eq_true'] at hf
     obtain ⟨⟨⟨h1, h2⟩, h3⟩, h4⟩ := hf
     show ∃ d, lookupDir _ (exec c g p).2.1.policy = some d ∧ _
-    rw [fr_dirs c g p h2, fr_policy c g p h3, fr_remote c g p h4]; exact hΓ.dirNew h1
+    rw [fr_dirs c g p h2, fr_policy c g p h3, fr_remote c g p h4, treeOf_exec c hvg.remote]; exact hΓ.dirNew h1
   · intro hf
     simp only [C3.kept, Bool.and_eq_true, Bool.not_eq_true'] at hf
     obtain ⟨h1, h2⟩ := hf
@@ -264,7 +244,7 @@ theorem keep_all3 {a : C3} {pc : Nat} {t : Bool} (hΓ : Γc a g p) (hvg : VG g) 
     obtain ⟨⟨⟨h1, h2⟩, h3⟩, h4⟩ := hf
     have := hΓ.newestF h1
     unfold G.newest at *
-    rw [fr_current c g p h2, fr_dirs c g p h3, fr_remote c g p h4]; exact this
+    rw [fr_current c g p h2, fr_dirs c g p h3, fr_remote c g p h4, commitAt_exec c hvg.remote]; exact this
 
 end keep
 
